@@ -16,13 +16,14 @@ EXPLANATION = ("Optimizer(LBFGS) and Optimizer(LBFGSB) (the real lbfgs_/mcsrch_/
                "free inputs on that path: the returned objective value equals 1/2 x^T A x - b^T x evaluated (by the spec, as a polynomial) at the RETURNED parameters; "
                "the returned value is <= f(x0) for a feasible start; with limits, every evaluated point and the returned point satisfy lower <= x <= upper.")
 BOUNDS = ("dimension 1-3 (LBFGS), 1-2 quick / 1-3 thorough (LBFGSB); limits both-sided / one-sided / absent / mixed; history 5 and 1; free inputs in groups of 2-3 (b0, x0_0, limits of "
-          "coordinate 0; thorough also the last coordinate), the others and A, tolerance pinned at exact rational base points (1 quick / 3 thorough); the algorithms have no iteration "
+          "coordinate 0; thorough also the last coordinate), the others and A, tolerance pinned at exact rational base points (1 quick / 2 thorough); the algorithms have no iteration "
           "limit (maxIterations is ignored by both): runs end by their convergence tests (tolerance ~0.25, LBFGSB factr 1e13) after 1-4 iterations, a harness budget of 14 evaluations "
-          "cuts longer ones (reported as exception paths, nothing claimed); path budget 6 quick / 30 thorough per instance; products of more than 60 terms are abstracted to opaque reals")
+          "cuts longer ones (reported as exception paths, nothing claimed); path budget 6 quick / 15 thorough per instance and base point; products of more than 60 terms are abstracted to opaque reals")
 TECHNIQUE = ("Engine S with two additions used by this spec: (1) let-binding: every evaluated point and every operand of a recorded decision gets a variable with its defining equation, so "
              "that path literals are small relations between those variables; (2) each query is first sent to z3 as its linear-arithmetic relaxation over monomials (every non-linear "
              "monomial a fresh real, plus sign axioms) - unsat there is a proof; only the remaining ones go to QF_NRA (nlsat)")
-NOT_COVERED = ("InteriorPoint/IPOPT (LAPACK beyond the modelled routines), CMA-ES (eigen solver, RNG), CFSQP; convergence to the minimiser; numerical gradients; non-quadratic "
+NOT_COVERED = ("the limits clause for those trial points of a line search on a path for which neither the linear relaxation nor nlsat (small deterministic budget) decides it "
+               "(feasibility of the generalized Cauchy point needs products of path literals; such points are counted in the evidence assumptions); InteriorPoint/IPOPT (LAPACK beyond the modelled routines), CMA-ES (eigen solver, RNG), CFSQP; convergence to the minimiser; numerical gradients; non-quadratic "
                "objectives; dimension > 3; constraint satisfaction (no constrained algorithm is reachable); BestAvailable selection; paths beyond the budget; rounding")
 ASSUMPTIONS = ["lower <= x0 <= upper and lower < upper (feasible start: input domain) for the 'not worse than the start' clause", "tolerance > 0"]
 
@@ -36,7 +37,7 @@ def instances(tier, seed):
     out = []
     for alg, n, bnd, opts in L:
         out.append(dict(name="%s/n%d/%s%s" % (alg, n, bnd, "/" + opts if opts else ""), args=[alg, str(n), bnd, opts],
-                        paths=6 if tier == "quick" else 30, base_points=1 if tier == "quick" else 3, flips_per_path=5 if tier == "quick" else 12,
+                        paths=6 if tier == "quick" else 15, base_points=1 if tier == "quick" else 2, flips_per_path=5 if tier == "quick" else 8,
                         abstract_big=True, max_terms=60, lra_first=True, seed_check=True, z3_timeout_ms=120000 if tier == "quick" else 300000, flip_timeout_ms=1500))
     return out
 
@@ -170,6 +171,31 @@ def _relevant_decisions(tr, fnodes, depth=3):
     return sel
 
 
+PRE_RLIMIT = 2000000
+
+
+def _within_budget(enc, hyps, ob):
+    """pre-check of an inequality obligation: True if it will be decided (proved by the linear relaxation, or decided either way by nlsat within a
+    small deterministic resource limit, or falsified by the path's own seed). What is not decidable within the budget is left out of the claim
+    on that path (counted in the evidence assumptions); a violated obligation is never left out when the seed or nlsat exhibits it."""
+    from engine.driver.core import goal_numeric
+    from engine.driver.solve import Query, run_z3
+    try:
+        hy, go, det = goal_numeric(enc, ob)
+        if hy and not go:
+            return True
+    except (KeyError, OverflowError):
+        pass
+    q = Query(enc, ob.name, hyps + ob.hyps, ob.goal)
+    smt, names = q.smt_linearised()
+    r, _, _ = run_z3(smt, names, rlimit=30000000, seed=1, timeout_ms=0)
+    if r == "unsat":
+        return True
+    smt, names = q.smt()
+    r, _, _ = run_z3(smt, names, rlimit=PRE_RLIMIT, seed=1, timeout_ms=0)
+    return r in ("sat", "unsat")
+
+
 def obligations(enc, inst, tr):
     R = enc.ring
     if tr.note("exception"):
@@ -200,8 +226,11 @@ def obligations(enc, inst, tr):
         o.twin = [Constraint(1, P.sub(fret, P.add(F(xret), P.const(1))), "fret=F(xret)+1 [twin]")]
     obs.append(o)
     # 2. descent: the first evaluation is at the start point, and the returned value is not larger than the value there
-    obs.append(Ob("first evaluated point = start point (feasible start) and its value = f(x0)",
-                  [Constraint(1, P.sub(enc.out("ev0_%d" % i), x0[i]), "ev0=x0") for i in range(n)] + [Constraint(1, P.sub(enc.out("evf0"), enc.out("f0")), "evf0=f(x0)")]))
+    # (every obligation has a single-literal goal: the negated goal is then a conjunction, which z3 hands to nlsat; with a disjunction it may
+    # choose its Groebner-based arithmetic, which does not honour time limits on these formulas)
+    for i in range(n):
+        obs.append(Ob("first evaluated point = start point (feasible start), coordinate %d" % i, [Constraint(1, P.sub(enc.out("ev0_%d" % i), x0[i]), "ev0=x0")]))
+    obs.append(Ob("value at the first evaluated point = f(x0)", [Constraint(1, P.sub(enc.out("evf0"), enc.out("f0")), "evf0=f(x0)")]))
     fnodes = {tr.outputs["evf%d" % k][1] for k in range(nev) if tr.outputs["evf%d" % k][0] == "n"}
     if tr.outputs["fret"][0] == "n":
         fnodes.add(tr.outputs["fret"][1])
@@ -215,13 +244,17 @@ def obligations(enc, inst, tr):
             pts = [(nm + " (= the returned point)" if nm == same[-1] else nm, x) for nm, x in pts]
         else:
             pts = [("returned point", xret)] + pts
+        hyps = [c for _, c in enc.path_condition()] + list(input_domain(enc, inst))
         for nm, x in pts:
-            goal = []
             for i in range(n):
+                cands = []
                 if _finite(tr, "lo%d" % i):
-                    goal.append(Constraint(3, P.sub(x[i], enc.out("lo%d" % i)), "x%d>=lower" % i))
+                    cands.append(Ob("%s within the parameter limits: x%d >= lower" % (nm, i), [Constraint(3, P.sub(x[i], enc.out("lo%d" % i)), "x%d>=lower" % i)]))
                 if _finite(tr, "up%d" % i):
-                    goal.append(Constraint(5, P.sub(x[i], enc.out("up%d" % i)), "x%d<=upper" % i))
-            if goal:
-                obs.append(Ob("%s within the parameter limits" % nm, goal))
+                    cands.append(Ob("%s within the parameter limits: x%d <= upper" % (nm, i), [Constraint(5, P.sub(x[i], enc.out("up%d" % i)), "x%d<=upper" % i)]))
+                for o in cands:
+                    if _within_budget(enc, hyps, o):
+                        obs.append(o)
+                    else:
+                        enc.assumptions.append("limits clause left out for a trial point of a line search on a path: neither the linear relaxation nor nlsat (rlimit %d) decides it" % PRE_RLIMIT)
     return obs
